@@ -13,6 +13,7 @@ RULE = ("BatchNorm1d/2d histories of 5-30 events over {train(), eval(), forward(
         "(n>=40000), per-position rate over 300 repeated calls, gradient = g*mask/(1-p); nested-mode scenario: Dropout / BatchNorm inside parent modules with diverging modes must follow the parent's last train()/eval(). distinct key = event-kind sequence + configuration; "
         "non-trivial = history has a mode switch and >= 2 training forwards (BN) / p in (0,1) (dropout)")
 RULE += (' Added after the seeded rounds: momentum 0.0, eps in {1e-5, 1e-3, 0.5}, batches far from the origin, `track_running_stats` switched off on the live module, `Dropout.p` reassigned.')
+RULE += (" Round 6 / reach monitor: training runs of 1100-1400 forwards on drifting data with cumulative and exponential averages (eval excursions in between).")
 ASSUMPTIONS = ["BatchNorm training on one value per channel: raising is accepted (PyTorch raises); the counter may or may not have advanced (PyTorch "
                "advances it); what is asserted is that the buffers never become non-finite and otherwise stay as they were",
                "6-sigma bands for the dropout statistics; NumPy global generator seeded per case"]
